@@ -960,10 +960,13 @@ impl<R: std::io::Read> FlacChannelReader<R> {
         } else {
             self.consumed = 0;
             let channels = usize::from(self.decoder.channel_count().get());
-            match self.decoder.read_frame()? {
-                Some(frame) => Ok(frame.channels().collect()),
-                None => Ok(vec![&[]; channels]),
+            if self.decoder.read_frame()?.is_none() {
+                // end of stream: drop the previous frame
+                // so that it isn't handed out again
+                self.decoder.buf = Frame::default();
+                return Ok(vec![&[]; channels]);
             }
+            Ok(self.decoder.buf.channels().collect())
         }
     }
 
